@@ -1,7 +1,8 @@
 """C07 - STACK WIN records evaluate exactly as documented (program strings and FPO).
 
 Spec: spec/WinEval.tla (frame-data token machine on u32 limbs, both search-start variants),
-spec/WinFpo.tla (FPO algorithm as a step machine over a size grid incl. sums past 2^32).
+spec/WinFpo.tla (FPO algorithm as a step machine over a size grid incl. sums past 2^32), spec/WinKinds.tla (which line
+yields a record - type x has_program_string - and which record answers: frame data, FPO, STACK CFI fall-back).
 Binding: G - every TLC state is rendered as a STACK WIN line, parsed by the real parser and
 unwound by the real SymbolFile::walk_frame against a mock FrameWalker that keeps the validity set
 the way CfiStackWalker does (harness replay_win).  The x86 walk_stack path (real CfiStackWalker)
@@ -31,6 +32,14 @@ def run(ctx):
     if f.violated:
         raise core.ToolFailure("design-level invariant %s of WinFpo.tla is violated in the model" % f.violated)
     repf = ctx.read_harness_report(ctx.harness("replay_win", ["fpo", f.out_path], out_name="replay_fpo.out"))
+    # ---- which record answers: type x has_program_string x evaluates-or-fails, with or without STACK CFI (WinKinds.tla)
+    wk = ctx.tlc("WinKinds", "MC_WinKinds_" + tier, coverage="separate", required_actions=["AddLine", "AddCfi"], timeout=3000)
+    if wk.violated:
+        raise core.ToolFailure("design-level invariant %s of WinKinds.tla is violated in the model" % wk.violated)
+    repk = ctx.read_harness_report(ctx.harness("replay_winkinds", [wk.out_path], out_name="replay_winkinds.out"))
+    for need in ("answer:framedata", "answer:fpo", "answer:cfi", "answer:none"):
+        if repk["classes"].get(need, 0) == 0:
+            raise core.ToolFailure("vacuous replay: WinKinds class %s never exercised" % need)
     # ---- parser layer: overlapping / duplicate STACK WIN records (RangeMap.tla, WinTable): for C07 the table the
     #      parser builds must be exactly the documented one (first of identical records wins, a record starting
     #      inside the previous one truncates it), so any difference from the model is a violation here
@@ -52,9 +61,9 @@ def run(ctx):
     for need in ("fpo_ok_bp", "fpo_ok_passthrough", "fpo_ok_leftover_skip", "fpo_fails"):
         if repf["classes"].get(need, 0) == 0:
             raise core.ToolFailure("vacuous replay: class %s never exercised" % need)
-    evals = sum(r["evaluations"] for r in reps) + repf["evaluations"] + repw["evaluations"]
+    evals = sum(r["evaluations"] for r in reps) + repf["evaluations"] + repw["evaluations"] + repk["evaluations"]
     cov = {
-        "states": sum(r.distinct for _, r in runs) + f.distinct,
+        "states": sum(r.distinct for _, r in runs) + f.distinct + wk.distinct,
         "transitions": sum(r.generated for _, r in runs) + f.generated,
         "traces_validated_against_impl": evals,
         "samples": (reps[0]["samples"][:3] + repf["samples"][:3]) or [{"note": "all successful cases hit the known finding; see known-findings.json"}],
@@ -64,8 +73,8 @@ def run(ctx):
         "rule": "every frame-data program over the configured WIN token alphabet up to MaxLen x 7 callee/size instances (non-trivial = "
                 "distinct (instance, program) with a defined result); every FPO configuration of the size grid x alloc-base-pointer x "
                 "ebp/ebx known x leftover-return-address (non-trivial = configuration that unwinds successfully)",
-        "tlc": dict([(c, r.as_dict()) for c, r in runs] + [("WinFpo", f.as_dict())]),
-        "replay_classes": {"eval": classes, "fpo": repf["classes"], "win_record_tables": repw["classes"]},
+        "tlc": dict([(c, r.as_dict()) for c, r in runs] + [("WinFpo", f.as_dict()), ("WinKinds", wk.as_dict())]),
+        "replay_classes": {"eval": classes, "fpo": repf["classes"], "win_record_tables": repw["classes"], "win_kinds": repk["classes"]},
         "words_selftest_vectors": nvec,
     }
     return ctx.finish("model_checking", cov, assumptions=[
